@@ -163,12 +163,19 @@ func c14Server(r *vf.Run, t *testing.T, id string, rng *rand.Rand) {
 	amplify := rng.Intn(8) == 0
 	k := 1 + rng.Intn(6)
 	nOff := rng.Intn(4)
+	endOnCrossing := false
 	if amplify {
 		nOff = 120 + rng.Intn(60)
 		k = 2
+		if rng.Intn(2) == 0 {
+			// the frame that crosses the body limit also ends the stream, and nothing follows it: 16 KiB of
+			// connection window per offender that only a receiver which credits discarded DATA hands back
+			endOnCrossing = true
+			nOff = 550 + rng.Intn(100)
+		}
 	}
 	offKinds := []string{"too-large-undeclared", "too-large-declared", "cl-mismatch", "peer-rst", "refused"}
-	replay := map[string]any{"role": "server", "uploads": k, "offending": nOff, "amplify": amplify}
+	replay := map[string]any{"role": "server", "uploads": k, "offending": nOff, "amplify": amplify, "offenders_end_on_the_crossing_frame": endOnCrossing}
 	failed := false
 	fail := func(rule, detail string) {
 		if !failed {
@@ -357,13 +364,46 @@ func c14Server(r *vf.Run, t *testing.T, id string, rng *rand.Rand) {
 				// one frame over the limit provokes the RST; the padded trickle is what is in flight behind it
 				big := wire.Frame(nil, wire.TData, 0, x.stream, make([]byte, 16384), -1)
 				var burst []byte
-				for i := 0; i < (bodyLimit*64)/16384+1; i++ {
+				nBig := (bodyLimit*64)/16384 + 1
+				if endOnCrossing {
+					// one frame at a time, as much as the windows allow, until the body limit is crossed; that frame ends the stream
+					left := bodyLimit*64 + 1 + rng.Intn(16000)
+					for left > 0 && !failed {
+						n := min(left, 16384, int(led.avail(x.stream)))
+						if n < 1 {
+							e.P.Write(burst)
+							burst = nil
+							rt.Wait()
+							if !check("amplification") {
+								return
+							}
+							if led.avail(x.stream) < 1 {
+								fail("sender-starved", fmt.Sprintf("amplification: offender number %d (stream %d) still has %d bytes to send but its stream window is %d and the connection window is %d, and the receiver is quiescent; every earlier offender ended with the DATA frame that crossed the body limit", (int(x.stream)-1)/2-k+1, x.stream, left, led.init+led.stream[x.stream], led.conn))
+								return
+							}
+							continue
+						}
+						led.spend(x.stream, int64(n))
+						left -= n
+						var fl byte
+						if left == 0 {
+							fl = wire.FEndStream
+						}
+						burst = append(burst, wire.Frame(nil, wire.TData, fl, x.stream, make([]byte, n), -1)...)
+					}
+					nBig = 0
+				}
+				for i := 0; i < nBig; i++ {
 					if led.avail(x.stream) >= 16384 {
 						led.spend(x.stream, 16384)
-						burst = append(burst, big...)
+						if endOnCrossing && i == nBig-1 {
+							burst = append(burst, wire.Frame(nil, wire.TData, wire.FEndStream, x.stream, make([]byte, 16384), -1)...)
+						} else {
+							burst = append(burst, big...)
+						}
 					}
 				}
-				for i := 0; i < 150; i++ {
+				for i := 0; i < 150 && !endOnCrossing; i++ {
 					fr := wire.Frame(nil, wire.TData, wire.FPadded, x.stream, wire.Pad([]byte{1}, 255), -1)
 					if led.avail(x.stream) >= 257 {
 						led.spend(x.stream, 257)
@@ -403,7 +443,7 @@ func c14Server(r *vf.Run, t *testing.T, id string, rng *rand.Rand) {
 		e.Finish()
 	})
 	c01Outcome(r, id, res, nil, replay, "C14")
-	r.Eval(vf.Hash("server", k, kindsUsed, amplify), true)
+	r.Eval(vf.Hash("server", k, kindsUsed, amplify, endOnCrossing), true)
 	if r.WantSample() {
 		r.Sample(replay)
 	}
